@@ -578,7 +578,7 @@ func genWireToken(c *choice.Ctx, p int, variant int) *wireToken {
 		emit(k.vsi, "vsi", cls)
 	}
 	// extra keys and map-level shape
-	xk := c.Choose("extra-keys", 21)
+	xk := c.Choose("extra-keys", 22)
 	if xk != 0 {
 		t.devs = append(t.devs, fmt.Sprintf("extra-keys=%d", xk))
 	}
@@ -613,10 +613,12 @@ func genWireToken(c *choice.Ctx, p int, variant int) *wireToken {
 		for i := 0; i < n; i++ {
 			t.tree.Put(mcbor.U(uint64(70000+i)), mcbor.U(uint64(i)))
 		}
-	case 20: // two distinct unknown keys that are congruent modulo 2^64 (2^63+5 and -(2^63-5)), and a third above MaxInt64
+	case 20, 21: // two distinct unknown keys that are congruent modulo 2^64 (2^63+5 and -(2^63-5)); 21: and the largest key
 		t.tree.Put(mcbor.U(1<<63+5), mcbor.U(1))
 		t.tree.Put(mcbor.N(1<<63-6), mcbor.U(2))
-		t.tree.Put(mcbor.U(1<<64-1), mcbor.U(3))
+		if xk == 21 {
+			t.tree.Put(mcbor.U(1<<64-1), mcbor.U(3))
+		}
 	case 17, 18, 19: // one unsigned key above MaxInt64 (not congruent to any claim key) and as many small unknown keys as make the map
 		// hold exactly 255 / 256 / 257 entries
 		t.tree.Put(mcbor.U(1<<63+5), mcbor.U(0))
